@@ -8,6 +8,7 @@
 import Emu.Proofs.Gc
 import Emu.Proofs.GcInterleave
 import Emu.Bt.Server
+import Emu.Proofs.Activity
 
 namespace Emu.Props.C16
 open Emu Emu.Bt Emu.Proofs.BtRow Emu.Proofs.BtInv Emu.Proofs.Gc
@@ -126,5 +127,46 @@ theorem record_follows_acknowledged_writes (now : Int) (s : Schema) (st1 : GcwSt
     simp only [h]
     exact ⟨by simp, fun k hk => by simp [hk]⟩
   · intro h; simp only [h]
+
+/-! ### "… nor runs on a table that is in active use"
+
+The background loop calls `gc(now, done, force=false)`; `xstep y (.tryGc name)` is that call, the
+table's activity stamps (`Emu.Bt.Activity`) being moved by the requests exactly as `tbl.read()` /
+`tbl.write()` move them and by `idle` as time passing does. -/
+
+/-- The loop's pass leaves a table alone unless its stamps say "quiet". -/
+theorem loop_pass_leaves_a_busy_table_alone (y : Sys) (name : Bytes) (h : (y.activity name).quiet = false) :
+    (xstep y (.tryGc name)).1 = y := by
+  simp only [xstep]
+  cases hf : y.srv.find name with
+  | none => rfl
+  | some t => simp [h]
+
+/-- … and when they do, it is one uninterrupted pass (`gcPass`, the function the theorems above are about). -/
+theorem loop_pass_on_a_quiet_table (y : Sys) (name : Bytes) (t : Table) (ht : y.srv.find name = some t)
+    (h : (y.activity name).quiet = true) :
+    (xstep y (.tryGc name)).1.srv = y.srv.setTable name (gcPass y.srv.now t) := by
+  simp only [xstep, ht, h, if_true, Sys.setAct]
+
+/-- What "quiet" means in terms of the table's history (reads, writes, passes, time passing, from
+    its creation on): something was written — or the table created — since the last pass, and for
+    `quiesceNanos` (five minutes) there has been neither a read nor a write. -/
+theorem quiet_means_unused (h : List Ev) :
+    (Activity.after h).quiet = true ↔
+      backDirty h.reverse = true ∧
+      Emu.Generated.quiesceNanos ≤ (backSince (· == .write) h.reverse : Int) ∧
+      Emu.Generated.quiesceNanos ≤ (backSince (· == .read) h.reverse : Int) :=
+  Emu.Proofs.Activity.pass_runs_iff h
+
+/-- In particular a read or a write less than five minutes ago keeps the pass away, whatever
+    happened before it. -/
+theorem recent_request_keeps_the_pass_away (before : List Ev) (e : Ev) (waits : List Nat)
+    (he : e = .read ∨ e = .write) (hw : (waits.sum : Int) < Emu.Generated.quiesceNanos) :
+    (Activity.after (before ++ e :: waits.map Ev.wait)).quiet = false :=
+  Emu.Proofs.Activity.recent_request_keeps_the_pass_away before e waits he hw
+
+example : (Activity.after [.write, .wait 200000000000, .read, .wait 400000000000]).quiet = true ∧
+    (Activity.after [.write, .wait 400000000000, .read, .wait 200000000000]).quiet = false ∧
+    (Activity.after [.write, .wait 400000000000, .pass, .wait 400000000000]).quiet = false := by decide
 
 end Emu.Props.C16
